@@ -7,7 +7,7 @@ from engines import e1_monitors as mon
 class SpecC12(e1_driver.Spec):
     prop = 'C12'
     monitor = mon.MonC12
-    profile = dict(p_pool_l=0.15, p_pool_s=0.15,
+    profile = dict(p_pool_l=0.15, p_pool_s=0.15, p_frequent_bounds=0.2,
                    fault_kinds=['stop_resume', 'stop_resume', 'kill', 'slice',
                                 'toggle', 'toggle', 'toggle', 'toggle'])
     runs = dict(quick=80, thorough=1500)
